@@ -1,0 +1,15 @@
+//go:build verif
+
+// Contracts for the gvc verifier (/verif). This file contains comments only:
+// with the "verif" build tag off it is not compiled, with it on it adds no code.
+
+package path_eval
+
+// Path-evaluation machines are only built for warnings; their construction is not under contract (callers see a
+// call with unknown effects on the heap and an arbitrary result).
+//@ func NewPathEvalMachine
+//@   assumed
+//@   modifies *
+//@ func NewPathEvalMachineWithCustomFns
+//@   assumed
+//@   modifies *
